@@ -66,6 +66,11 @@ ASSUMPTIONS = [
     "model)",
     "the corruption warning is recognised as a UserWarning whose text "
     "mentions 'corrupt' or 'during writing'",
+    "content of export files is compared bit-exactly with the clean run; "
+    "two separate PT-TEMPO runs are only equal up to a bond gauge (probed: "
+    "O(1) differences in single tensors, 1e-15 in the contraction), so for "
+    "that workload number/presence/shape of every tensor and the dynamics "
+    "from the full contraction (<=1e-10) are compared",
     "use-fails (no warning at open, but a tensor read raises) is accepted, "
     "as decided in DESIGN 3/C17; a consumer failure alone does not excuse "
     "silently missing tensors",
@@ -157,7 +162,9 @@ def cases(tier, seed):
                          dict(variants[1], n=2)]
         nl = 8
         for vi, v in enumerate(line_variants):
-            for m in cc.MODES:
+            # third variant (rank 3, transforms, overwriting): its extra
+            # lines with one mode of each kind (signal / exception / exit)
+            for m in (cc.MODES if vi < 2 else ["kill", "exc", "exit"]):
                 for c in range(nl):
                     out.append({"kind": "crash", "variant": v,
                                 "vi": 100 + vi, "level": "lines",
@@ -166,7 +173,7 @@ def cases(tier, seed):
         # multi-MB tensors (partial HDF5 flushes under SIGKILL)
         big = {"workload": "export", "n": 3, "bond": 128, "dt": 0.1,
                "seed": 1000 + seed, "large": True}
-        big3 = {"workload": "export", "n": 3, "bond": 512, "dt": 0.1,
+        big3 = {"workload": "export", "n": 3, "bond": 256, "dt": 0.1,
                 "rank3": True, "seed": 2000 + seed, "large": True}
         for vi, v in enumerate([big, big3]):
             for m in cc.MODES:
